@@ -125,6 +125,13 @@ func runC10(c *core.Ctx) {
 		runBidiCase(c, kind, IntDom(c.R.Range(100, 300)))
 		return
 	}
+	if (c.Index/2)%37 == 5 && kind == "TreeBidiMap" {
+		// float keys incl. NaN, the infinities and both zeros (one key each
+		// under cmp.Compare), on maps built by New and by NewWith
+		c.Count("keytype:float", 1)
+		runBidiCase(c, kind, FKeyDom(c.R.Range(4, 6)))
+		return
+	}
 	if (c.Index/2)%4 == 3 {
 		runBidiCase(c, kind, StrDom(c.R.Range(4, 6)))
 		return
@@ -149,6 +156,8 @@ func init() {
 			f.atLeast("obs:bidi-probes", 1000000)
 			f.atLeast("call:HashBidiMap.Remove", 10000)
 			f.atLeast("call:TreeBidiMap.Remove", 10000)
+			f.atLeast("keytype:float", 200)
+			f.atLeast("ctor:builtin-comparator", 500)
 			return f.missing
 		},
 		Files: []string{"maps/hashbidimap/hashbidimap.go", "maps/treebidimap/treebidimap.go"},
